@@ -120,13 +120,16 @@ def run(tier, seed):
                     vs.append(Violation(PROP, '%s:foreign-exception:%s' % (PROP, x.get('exc')), 'decoder op failed with %s' % x.get('exc'), {'case': dc}))
         # command-line tools
         _, libd = build.ensure('asan')
-        n_tool = 300 if tier == 'quick' else 3000
+        n_tool = 400 if tier == 'quick' else 4000
         tool_runs = 0
+
+        targeted = [j for j, (k, p, ln) in enumerate(inputs) if k.split('+')[0] in ('time_huge', 'field_boundary', 'tps_zero', 'uint_boundary')]
 
         def tool_job(i):
             r = gen.seeded(seed, 'C03t', i)
             tool = TOOLS[i % len(TOOLS)]
-            k, p, ln = inputs[r.randrange(len(inputs))]
+            # half of the runs on inputs with extreme times / indices / tick rates (what the tools re-encode or resolve)
+            k, p, ln = inputs[r.choice(targeted)] if (targeted and i % 2) else inputs[r.randrange(len(inputs))]
             if tool == 'cdns-merge':
                 k2, p2, _ = inputs[r.randrange(len(inputs))]
                 outp = os.path.join(wd, 'merge_%d.out' % i)
@@ -135,13 +138,15 @@ def run(tier, seed):
                 args = [x for x in ['-b', '-p'] if r.random() < 0.5] + [p]
             else:
                 args = [p]
-            rc, out, err, to = runner.run_tool(os.path.join(libd, tool), args, timeout=120)
+            rc, out, err, to = runner.run_limited(os.path.join(libd, tool), args, timeout=600, cpu=30, fsize=32 << 20)
             return tool, k, p, rc, err, to
         with cf.ThreadPoolExecutor(max_workers=runner.NCPU) as ex:
             for tool, k, p, rc, err, to in ex.map(tool_job, range(n_tool)):
                 tool_runs += 1
                 if to:
                     vs.append(Violation(PROP, '%s:hang:%s' % (PROP, tool), '%s did not terminate' % tool, {'mutation': k, 'input_hex': open(p, 'rb').read()[:3000].hex()}))
+                elif rc in (-24, -25):
+                    vs.append(Violation(PROP, '%s:%s:%s' % (PROP, tool, 'cpu-limit' if rc == -24 else 'output-flood'), '%s on hostile input (%s) did not terminate normally: %s' % (tool, k, 'CPU limit of 30 s' if rc == -24 else 'more than 32 MiB of output'), {'mutation': k, 'input_hex': open(p, 'rb').read()[:3000].hex()}))
                 elif rc not in (0, 1):
                     tr = runner.triage(err, rc) or ('exit-%s' % rc, 'unknown-frame', err[-1500:])
                     vs.append(Violation(PROP, '%s:%s:%s:%s' % (PROP, tool, tr[0], tr[1]), '%s on hostile input (%s): %s in %s' % (tool, k, tr[0], tr[1]), {'mutation': k, 'input_hex': open(p, 'rb').read()[:3000].hex(), 'report': tr[2]}))
